@@ -984,7 +984,25 @@ pub fn c14_prog(st: &mut Stats, p: &grammar::Prog, r: &mut Rng) {
                 }
                 // the same omission with a character that belongs to nothing in its place
                 if d.expect_at.is_none() && r.chance(1, 4) {
-                    let foreign = r.pick(&['\0', '\u{1}', '\u{7f}', '`', '\\', '\u{200b}', '\u{feff}']);
+                    // control / catch-all characters, or a character that merely resembles the
+                    // deleted delimiter (same low byte, or its full-width twin)
+                    let dc = match d.token {
+                        TokenType::LPAREN => '(',
+                        TokenType::ASSIGN => '=',
+                        TokenType::COMMA => ',',
+                        TokenType::FSLASH => '/',
+                        _ => ';',
+                    };
+                    let twins: Vec<char> = [0x100u32, 0x200, 0x2000, 0x2200, 0x2300, 0x3000, 0xFEE0, 0x1F600]
+                        .iter()
+                        .filter_map(|b| char::from_u32(b + dc as u32))
+                        .filter(|c| !c.is_whitespace() && !c.is_alphanumeric() && !unicode_ident::is_xid_continue(*c))
+                        .collect();
+                    let foreign = if !twins.is_empty() && r.chance(1, 2) {
+                        twins[r.below(twins.len())]
+                    } else {
+                        r.pick(&['\0', '\u{1}', '\u{7f}', '`', '\\', '\u{200b}', '\u{feff}'])
+                    };
                     let src2 = format!("{}{}{}", &src[..at], foreign, &src[at..]);
                     st.cases += 1;
                     let ex2 = exec(&src2);
